@@ -44,6 +44,10 @@ var c03Ops = []string{"+", "-", "*", "/", "%", "=", "!=", "<", "<=", ">", ">=", 
 // small sub-alphabet for nested expressions (indices into c03Operands are looked up by source)
 var c03Small = []string{"0", "1", "(-2.5)", `""`, `"a"`, `"1"`, "true", "[1,2]", `{"a":1}`, "nothing"}
 
+// c03Medium: every kind with its edge members, for the thorough depth-2 product
+var c03Medium = []string{"0", "(-0)", "1", "(-2.5)", "3", "1e308", "(-1e308)", "5e-324", `""`, `"a"`, `"1"`, `"é"`, "true", "false", "null",
+	"[]", "[1,2]", `[1,"a"]`, "{}", `{"a":1}`, "$sum", "nothing"}
+
 func c03Find(src string) operand {
 	for _, o := range c03Operands {
 		if o.src == src {
@@ -172,12 +176,16 @@ func init() {
 				}
 				c03Check(x, n, doc)
 			}},
-			{Name: "nested-depth2", Quick: []int{1}, Run: func(c *explore.Chooser, x *explore.Ctx, _ int) {
+			{Name: "nested-depth2", Quick: []int{1}, Thorough: []int{1, 2}, Run: func(c *explore.Chooser, x *explore.Ctx, size int) {
+				alpha := c03Small
+				if size == 2 {
+					alpha = c03Medium
+				}
 				op1 := c03Ops[c.Choose(len(c03Ops))]
 				op2 := c03Ops[c.Choose(len(c03Ops))]
-				a := c03Find(c03Small[c.Choose(len(c03Small))])
-				b := c03Find(c03Small[c.Choose(len(c03Small))])
-				d := c03Find(c03Small[c.Choose(len(c03Small))])
+				a := c03Find(alpha[c.Choose(len(alpha))])
+				b := c03Find(alpha[c.Choose(len(alpha))])
+				d := c03Find(alpha[c.Choose(len(alpha))])
 				leftNest := c.Bool()
 				c.Done()
 				doc := map[string]interface{}{}
@@ -187,6 +195,36 @@ func init() {
 					n = &ref.Bin{Op: op2, L: &ref.Bin{Op: op1, L: na, R: nb}, R: nd}
 				} else {
 					n = &ref.Bin{Op: op1, L: na, R: &ref.Bin{Op: op2, L: nb, R: nd}}
+				}
+				c03Check(x, n, doc)
+			}},
+			{Name: "nested-depth3", Thorough: []int{1}, ShardDepth: 3, Run: func(c *explore.Chooser, x *explore.Ctx, _ int) {
+				// every bracketing of three operators over a six-value alphabet
+				tiny := []string{"1", "(-2.5)", `"a"`, "true", "[1,2]", "nothing"}
+				ops := make([]string, 3)
+				for i := range ops {
+					ops[i] = c03Ops[c.Choose(len(c03Ops))]
+				}
+				vals := make([]ref.Node, 4)
+				doc := map[string]interface{}{}
+				for i := range vals {
+					vals[i] = c03Operand(c03Find(tiny[c.Choose(len(tiny))]), false, "", doc)
+				}
+				shape := c.Choose(5)
+				c.Done()
+				b := func(op string, l, r ref.Node) ref.Node { return &ref.Bin{Op: op, L: l, R: r} }
+				var n ref.Node
+				switch shape {
+				case 0:
+					n = b(ops[2], b(ops[1], b(ops[0], vals[0], vals[1]), vals[2]), vals[3])
+				case 1:
+					n = b(ops[2], b(ops[0], vals[0], b(ops[1], vals[1], vals[2])), vals[3])
+				case 2:
+					n = b(ops[1], b(ops[0], vals[0], vals[1]), b(ops[2], vals[2], vals[3]))
+				case 3:
+					n = b(ops[0], vals[0], b(ops[2], b(ops[1], vals[1], vals[2]), vals[3]))
+				default:
+					n = b(ops[0], vals[0], b(ops[1], vals[1], b(ops[2], vals[2], vals[3])))
 				}
 				c03Check(x, n, doc)
 			}},
